@@ -157,7 +157,13 @@ def gen_cases(ctx, consts):
             rr = [2 * d.knots[0] / ded[0]]
             for j in range(1, d.n):
                 rr.append(rr[-1] + (d.knots[j] - d.knots[j - 1]) * 0.5 * (1 / ded[j] + 1 / ded[j - 1]))
-            rt = Table(rr, d.front, d.back, -1)
+            if all(x < y for x, y in zip(rr, rr[1:])):
+                rt = Table(rr, d.front, d.back, -1)
+            else:
+                # dE/dx so large that an increment of the integral is below one ulp of the running sum:
+                # the table would have duplicated range values, outside the precondition "strictly
+                # increasing" (NonuniformGrid / InverseRangeCalculator); keep the independent range table
+                consistent = False
         e = r.choice([d.knots[0], d.knots[-1], d.knots[0] * r.uniform(0.01, 1), d.knots[-1] * r.uniform(1, 10),
                       math.exp(r.uniform(d.front, d.back)), math.exp(r.uniform(d.front, d.back))])
         rng = py_range(rt, e)
@@ -246,7 +252,7 @@ def gen_cases(ctx, consts):
         gs = sorted(x for x in set(gs + [gmax, gmax * 0.5, gmax * 0.99]) if 0 < x <= gmax)
         if gs:
             C.append(("fromgeo", dict(true=true, alpha=alpha, range=rng, lam=lam, args=gs)))
-    return C
+    return C + gen_generic_cases(ctx)
 
 
 def case_line(k, p):
@@ -254,6 +260,8 @@ def case_line(k, p):
     args = "%d %s" % (len(a), " ".join(map(hx, a)))
     if k in ("xs", "range", "invrange"):
         return "%s %s %s" % (k, p["t"].cmd(), args)
+    if k in ("generic", "geninv", "genmk"):
+        return "%s %d %s %d %s %s" % (k, len(p["xs"]), " ".join(map(hx, p["xs"])), len(p["ys"]), " ".join(map(hx, p["ys"])), args)
     if k == "xsat":
         return "xsat %s %d %s" % (p["t"].cmd(), len(a), " ".join(hx(float(i)) for i in a))
     if k == "eloss":
@@ -269,6 +277,8 @@ def case_expr(k, p, consts):
     ms, dtrl, small = (hexf(c) for c in consts)
     if k in ("xs", "range", "invrange"):
         return "run_%s %s %s" % (k, p["t"].coq(), fl(a))
+    if k in ("generic", "geninv", "genmk"):
+        return "%s %s %s %s" % ("run_generic" if k == "generic" else "run_generic_inv", fl(p["xs"]), fl(p["ys"]), fl(a))
     if k == "xsat":
         return "run_xsat %s [%s]" % (p["t"].coq(), "; ".join("%d%%Z" % i for i in a))
     if k == "eloss":
@@ -280,6 +290,118 @@ def case_expr(k, p, consts):
     return "run_fromgeo %s %s %s %s %s %s %s" % (ms, small, hexf(p["true"]), hexf(p["alpha"]), hexf(p["range"]),
                                                  hexf(p["lam"]), fl(a))
 
+
+
+# --------------------------------------------------------------------------
+# GenericCalculator (nonuniform grid, linear interpolation, end clamping, inverse)
+
+def gen_generic_cases(ctx):
+    r = ctx.rng
+    thorough = ctx.tier != "quick"
+    C = []
+    # corpus: the example of GenericProofs.v, a 2-point grid, grid points one ulp apart
+    fixed = [([1.0, 2.0, 4.0], [3.0, 5.0, 6.0]), ([-1.0, 1.0], [2.0, -2.0]),
+             ([1.0, ulps(1.0, 1), ulps(1.0, 2), 2.0], [0.0, 1.0, 3.0, 4.0])]
+    ntab = 16 if not thorough else 300
+    for ti in range(len(fixed) + ntab):
+        if ti < len(fixed):
+            xs, ys = fixed[ti]
+            mono = all(a < b for a, b in zip(ys, ys[1:]))
+        else:
+            n = r.choice([2, 2, 3, 3, 4, 5, 8, 13, 40, r.randrange(2, 120)]) if thorough else r.choice([2, 2, 3, 3, 4, 5, 8, 13, r.randrange(2, 40)])
+            style = r.randrange(4)
+            if style == 0:      # positive, log-like spacing over many decades
+                x = 10 ** r.uniform(-8, 2); xs = [x]
+                for _ in range(n - 1):
+                    x *= 1 + 10 ** r.uniform(-3, 1); xs.append(x)
+            elif style == 1:    # signed, additive spacing
+                x = r.uniform(-100, 100); xs = [x]
+                for _ in range(n - 1):
+                    x += 10 ** r.uniform(-6, 2); xs.append(x)
+            elif style == 2:    # clusters of points a few ulp apart
+                x = r.uniform(-10, 10); xs = [x]
+                for _ in range(n - 1):
+                    x = ulps(x, r.choice([1, 1, 2, 5])) if r.random() < 0.4 else x + 10 ** r.uniform(-3, 1)
+                    xs.append(x)
+            else:               # integers (exact arithmetic everywhere)
+                xs = sorted(r.sample(range(-50, 200), n)); xs = [float(v) for v in xs]
+            mono = r.random() < 0.5
+            if mono:            # increasing values with a bounded slope: a well-conditioned inverse
+                y = r.uniform(-5, 5); ys = [y]
+                for a, b in zip(xs, xs[1:]):
+                    y += max((b - a) * r.uniform(0.5, 2.0), 4 * math.ulp(y)); ys.append(y)
+                if any(not a < b for a, b in zip(ys, ys[1:])):
+                    mono = False
+            else:
+                kind = r.randrange(3)
+                ys = [r.uniform(-3, 3) if kind == 0 else (10 ** r.uniform(-6, 6) if kind == 1 else float(r.randrange(0, 4)))
+                      for _ in xs]
+        n = len(xs)
+        idx = sorted({0, 1, n - 2, n - 1} | {r.randrange(n) for _ in range(6)})
+        q = []
+        for i in idx:
+            q += [ulps(xs[i], d) for d in (-2, -1, 0, 1, 2)]
+        for i in sorted({0, n - 2} | {r.randrange(n - 1) for _ in range(4)}):
+            q += [xs[i] + (xs[i + 1] - xs[i]) * f for f in (0.5, r.random(), 0.999)]
+        span = xs[-1] - xs[0]
+        q += [xs[0] - span, xs[0] - 1e-3 * span, xs[-1] + 1e-3 * span, xs[-1] + 10 * span, -1e300, 1e300]
+        q = sorted(set(v for v in q if math.isfinite(v)))
+        C.append(("generic", dict(xs=xs, ys=ys, args=q, mono=mono)))
+        if mono:
+            # inverse calculators, queried in y: from_inverse and make_inverse must agree, and invert
+            qy = []
+            for i in idx:
+                qy += [ulps(ys[i], d) for d in (-1, 0, 1)]
+            for i in sorted({0, n - 2} | {r.randrange(n - 1) for _ in range(4)}):
+                qy += [ys[i] + (ys[i + 1] - ys[i]) * f for f in (0.5, r.random())]
+            qy += [ys[0] - 1.0, ys[-1] + 1.0]
+            qy = sorted(set(qy))
+            C.append(("geninv", dict(xs=xs, ys=ys, args=qy, mono=True)))
+            C.append(("genmk", dict(xs=xs, ys=ys, args=qy, mono=True)))
+    return C
+
+
+def generic_oracle(k, p, out):
+    """property clauses on the implementation's outputs (x grid gx, values gy)"""
+    gx, gy = (p["xs"], p["ys"]) if k == "generic" else (p["ys"], p["xs"])
+    n = len(gx)
+    scale = max(abs(v) for v in gy)
+    slack = 1e-12 * scale + 1e-300
+    if k == "generic" and p.get("at") is not None and p["at"] != gy:
+        return "operator[] does not return the tabulated values", None
+    prev = None
+    for x, v in zip(p["args"], out):
+        if x <= gx[0]:
+            if v != gy[0]:
+                return "below the grid the first value must be returned (constant extrapolation)", x
+        elif x >= gx[-1]:
+            if v != gy[-1]:
+                return "above the grid the last value must be returned (constant extrapolation)", x
+        else:
+            i = bisect.bisect_right(gx, x) - 1
+            if x == gx[i] and not close(v, gy[i], rtol=1e-12, atol=slack):
+                return "lookup at grid point %d gives %r, the table says %r" % (i, v, gy[i]), x
+            lo, hi = min(gy[i], gy[i + 1]), max(gy[i], gy[i + 1])
+            if not (lo - slack <= v <= hi + slack):
+                return "interpolated value %r not between the neighbouring values %r, %r" % (v, gy[i], gy[i + 1]), x
+            if k != "generic":
+                # inverse calculators: interpolating the ORIGINAL table at the result gives the query back
+                dx, dy = gy[i + 1] - gy[i], gx[i + 1] - gx[i]          # original x step, original y step
+                back = gx[i] + dy * ((v - gy[i]) / dx)
+                tol = 1e-9 * abs(dy) + abs(dy) * 2 * math.ulp(v) / dx + 1e-12 * max(abs(gx[0]), abs(gx[-1]))
+                if abs(back - x) > tol:
+                    return "inverse calculator: the table interpolated at the result %r gives %r, not the query" % (v, back), x
+            # continuity: within 2 ulp of a grid point the value is within the local variation
+            for j in (i, i + 1):
+                if abs(x - gx[j]) <= 2 * math.ulp(gx[j]):
+                    step = max(abs(gy[min(j + 1, n - 1)] - gy[j]), abs(gy[j] - gy[max(j - 1, 0)]))
+                    width = min([gx[m + 1] - gx[m] for m in (j - 1, j) if 0 <= m < n - 1])
+                    if abs(v - gy[j]) > step * min(1.0, 4 * math.ulp(gx[j]) / width) + slack:
+                        return "jump at grid point %d: value %r two ulp away, table %r" % (j, v, gy[j]), x
+        if p["mono"] and prev is not None and v < prev - slack:
+            return "values are increasing but the lookup decreases", x
+        prev = v
+    return None, None
 
 # --------------------------------------------------------------------------
 # property oracle on the implementation's outputs
@@ -301,6 +423,8 @@ def oracle(k, p, out, consts):
     flat = list(_flat(out))
     if any(not math.isfinite(v) for v in flat):
         return "non-finite result", None
+    if k in ("generic", "geninv", "genmk"):
+        return generic_oracle(k, p, out)
     if k == "xs":
         t = p["t"]
         for e, v in zip(a, out):
@@ -462,6 +586,10 @@ def agree(k, p, out, mv):
         return True
     if k == "fromgeo":
         return all(close(x, y, rtol=1e-9, atol=1e-13 * p["true"]) for x, y in zip(out, mv))
+    if k in ("generic", "geninv", "genmk"):
+        gy = p["ys"] if k == "generic" else p["xs"]
+        atol = 1e-12 * max(abs(v) for v in gy) + 1e-300
+        return all(close(x, y, rtol=1e-9, atol=atol) for x, y in zip(out, mv))
     scale = max(abs(v) for v in out) if out else 0.0
     return all(close(x, y, rtol=1e-9, atol=1e-300) for x, y in zip(out, mv))
 
@@ -597,6 +725,127 @@ def builder_oracle(c, prime, qv, knots):
     return None, None
 
 
+
+def gen_fgeant_cases(ctx):
+    """ValueGridXsBuilder::from_geant on the four imported arrays: valid tables, a mismatch at the
+    coincident point (precondition violated, not enforced in this build), inconsistent spacings"""
+    r = ctx.rng
+    thorough = ctx.tier != "quick"
+    cases = []
+    specs = [(1e-4, 1e8, 85)]
+    for _ in range(5 if not thorough else 80):
+        a = r.randrange(-6, 1); d = r.randrange(1, 12); b = r.choice([1, 2, 3, 5, 7, 10])
+        specs.append((10.0 ** a, 10.0 ** (a + d), d * b + 1))
+    for _ in range(6 if not thorough else 60):
+        emin = 10 ** r.uniform(-6, 1)
+        specs.append((emin, emin * 10 ** r.uniform(0.5, 10), r.choice([3, 4, 5, 9, 33, r.randrange(3, 150 if thorough else 40)])))
+    for si, (emin, emax, n) in enumerate(specs):
+        if n < 3:
+            continue
+        lmin, lmax = math.log(emin), math.log(emax)
+        es = [math.exp(lmin + (lmax - lmin) / (n - 1) * i) for i in range(n)]
+        es[0], es[-1] = emin, emax
+        phys = [10 ** r.uniform(-3, 3) for _ in es]
+        if thorough:
+            ks = sorted({1, n - 2, r.randrange(1, n - 1)})
+        elif si == 0 or n > 45:
+            ks = [r.choice([1, n - 2, r.randrange(1, n - 1)])]
+        else:
+            ks = sorted({r.choice([1, n - 2]), r.randrange(1, n - 1)})
+        for k in ks:
+            le, pe = es[:k + 1], es[k:]
+            l = phys[:k + 1]
+            lp = [phys[i] * es[i] for i in range(k, n)]
+            cases.append(dict(kind="valid", le=le, l=l, pe=pe, lp=lp))
+            if si % 3 == 0:
+                l2 = list(l); l2[-1] = l[-1] * 1.5 + 1.0      # lambda.back != lambda_prim.front / E
+                cases.append(dict(kind="mismatch", le=le, l=l2, pe=pe, lp=lp))
+            if si % 3 == 1 and len(pe) >= 2:
+                dlt = (es[1] / es[0]) ** r.choice([0.5, 1.5, 2.0, 1.001])   # clearly different spacing: throws
+                pe2 = [pe[0] * dlt ** j for j in range(len(pe))]
+                cases.append(dict(kind="inconsistent", le=le, l=l, pe=pe2, lp=lp))
+            if si % 3 == 2 and len(pe) >= 2:
+                dlt = (es[1] / es[0]) * (1 + 1e-14)                         # within soft_equal: accepted
+                pe2 = [pe[0] * dlt ** j for j in range(len(pe))]
+                cases.append(dict(kind="near", le=le, l=l, pe=pe2, lp=lp))
+    return cases
+
+
+def fgeant_line(c):
+    return "fgeant " + " ".join("%d %s" % (len(v), " ".join(map(hx, v))) for v in (c["le"], c["l"], c["pe"], c["lp"]))
+
+
+def run_fgeant(ctx, exe):
+    cases = gen_fgeant_cases(ctx)
+    rc, out = ctx.run_harness(exe, input="".join(fgeant_line(c) + "\n" for c in cases), timeout=600)
+    lines = out.splitlines()
+    if rc != 0 or len(lines) != len(cases):
+        raise vlib.BuildError("builder harness (fgeant) failed rc=%d (%d lines for %d cases)" % (rc, len(lines), len(cases)), out[-1500:])
+    exprs = [("fg", "run_from_geant %s %s %s %s" % (fl(c["le"]), fl(c["l"]), fl(c["pe"]), fl(c["lp"]))) for c in cases]
+    pexprs, pmap = [], []
+    parsed = []
+    for ci, ln in enumerate(lines):
+        if ln.startswith("threw"):
+            parsed.append(None)
+            continue
+        head, vals = ln.split("|")
+        h = head.split()
+        parsed.append((int(h[0]), int(h[1]), [pf(t) for t in h[2:5]], [pf(t) for t in vals.split()]))
+        pexprs.append(("prime", "run_build_prime %s %s %s %d" % (hexf(pf(h[2])), hexf(pf(h[3])), hexf(pf(h[4])), int(h[1]))))
+        pmap.append(ci)
+    mvals = batched_eval(ctx, "fgeant", PRE, exprs + pexprs, batch=20, files=3)
+    mfg = mvals[:len(exprs)]
+    mprime = dict(zip(pmap, mvals[len(exprs):]))
+    nv = 0
+    for ci, (c, pr, mv) in enumerate(zip(cases, parsed, mfg)):
+        ctx.count("kind:from_geant-" + c["kind"])
+        ctx.case(("fgeant", c["kind"], len(c["le"]), len(c["pe"]), hx(c["le"][0]), hx(c["pe"][-1]), hx(c["l"][-1])), nontrivial=True)
+        if nv >= 3:
+            continue
+        rep = {"kind": c["kind"], "command": fgeant_line(c)[:6000], "implementation": lines[ci][:3000], "model": repr(mv)[:3000]}
+        m_args, m_expects = mv
+        want = c["l"][:-1] + c["lp"]
+        msg = None
+        # property oracle against the INPUT arrays
+        if c["kind"] == "inconsistent":
+            if pr is not None:
+                msg = "from_geant accepted lower/upper energy grids with inconsistent log spacing"
+        elif pr is None:
+            msg = "from_geant rejected a valid imported table"
+        else:
+            prime, size, logs, stored = pr
+            if size != len(want) or stored != want:
+                msg = "from_geant did not concatenate lambda[:-1] ++ lambda_prim (stored %d values, expected %d)" % (len(stored), len(want))
+            elif prime != len(c["l"]) - 1:
+                msg = "from_geant: prime index %d is not the coincident point %d" % (prime, len(c["l"]) - 1)
+            elif not (close(logs[0], math.log(c["le"][0]), rtol=1e-12, atol=1e-15) and close(logs[2], math.log(c["pe"][-1]), rtol=1e-12, atol=1e-15)):
+                msg = "from_geant: grid bounds are not log(lambda_energy.front()), log(lambda_prim_energy.back())"
+        if msg:
+            nv += 1
+            ctx.violation("oracle", msg, rep)
+            continue
+        # correspondence with the model
+        bad = None
+        if (pr is None) != (m_args is None):
+            bad = "throw / no throw"
+        elif pr is not None:
+            memin, meprime, memax, mxs = m_args
+            if mxs != pr[3]:
+                bad = "concatenated values"
+            elif (memin, meprime, memax) != (c["le"][0], c["pe"][0], c["pe"][-1]):
+                bad = "constructor arguments"
+            elif mprime.get(ci) != pr[0]:
+                bad = "prime index (model %r)" % (mprime.get(ci),)
+        if bad is None and c["kind"] in ("valid", "near") and m_expects is not True:
+            bad = "the model's from_geant_expects rejects a valid table"
+        if bad is None and c["kind"] == "mismatch" and m_expects is not False:
+            bad = "the model's from_geant_expects accepts lambda.back() != lambda_prim.front()/E"
+        if bad:
+            nv += 1
+            ctx.violation("correspondence", "from_geant model and ValueGridXsBuilder::from_geant disagree: " + bad, rep, no_input=True)
+    ctx.log("from_geant: %d cases" % len(cases))
+
+
 def run_builders(ctx):
     ctx.build_libs(["celeritas"])
     exe = ctx.compile_harness([os.path.join(HERE, "harness", "builder.cc")], "builder",
@@ -646,6 +895,7 @@ def run_builders(ctx):
             rep["model_prime_index"] = model_prime[ci]
             ctx.violation("correspondence", "builder model and ValueGridXsBuilder::build disagree on prime_index", rep, no_input=True)
     ctx.log("builders: %d built grids (%d with a scaled part)" % (len(cases), len(emap)))
+    run_fgeant(ctx, exe)
 
 
 def run(ctx):
@@ -699,6 +949,7 @@ def run(ctx):
         return
     mvals = batched_eval(ctx, "calc", PRE, [(k, case_expr(k, p, consts)) for k, p in cases])
     nviol = {}
+    last_inv = None
     for (k, p), ol, mv in zip(cases, olines, mvals):
         if nviol.get(k, 0) >= 2:
             continue
@@ -710,6 +961,14 @@ def run(ctx):
             vals = [(vals[i], vals[i + 1], vals[i + 2:i + 6]) for i in range(0, len(vals), 6)]
         elif k == "eloss":
             p["dedx"] = pf(ol.split("|")[1].split()[0])
+        elif k == "generic":
+            p["at"] = [pf(t) for t in ol.split("|")[1].split()]
+        elif k == "geninv":
+            last_inv = (p["xs"], p["args"], vals)
+        elif k == "genmk" and last_inv is not None and last_inv[:2] == (p["xs"], p["args"]) and last_inv[2] != vals:
+            nviol[k] = nviol.get(k, 0) + 1
+            ctx.violation("oracle", "GenericCalculator::from_inverse and make_inverse disagree",
+                          {"command": case_line(k, p)[:3000], "from_inverse": list(map(hx, last_inv[2])), "make_inverse": list(map(hx, vals))})
         ctx.count("kind:" + k)
         for a in p["args"]:
             ctx.case((k, case_line(k, p)[:300], a), nontrivial=True)
